@@ -152,6 +152,24 @@ pub fn run(_params: &[i64], ops: &Rows, mon: &mut Mon) -> Rows {
                     res = Some(None); } } }
             11 => { match take(&mut pool, h) { H::Grp(g) => { match cast!(g impl Clone) { Some(c) => res = Some(Some(H::GrpC(c))), None => res = Some(None) } } other => { if h >= 0 && (h as usize) < pool.len() { pool[h as usize] = other; } } } }
             12 => { match take(&mut pool, h) { H::GrpC(g) => res = Some(Some(H::Grp(g.upcast()))), other => { if h >= 0 && (h as usize) < pool.len() { pool[h as usize] = other; } } } }
+            21 => {
+                // the consuming entry called DIRECTLY through the vtable, as a C caller does: no caller-side guard exists, so the object's own context
+                // reference is what must keep the context alive until the instance is destroyed (reported with op code 5: the model's consuming call)
+                match take(&mut pool, h) {
+                    H::Node(o) => {
+                        use cglue::trait_group::GetContainer;
+                        let before = cur_count().unwrap();
+                        let _ = SEEN_AT_DROP.with(|v| std::mem::take(&mut *v.borrow_mut()));
+                        let f = o.get_vtbl().fin();
+                        let cont = o.into_ccont();
+                        let _ = unsafe { f(cont) };
+                        let seen = SEEN_AT_DROP.with(|v| std::mem::take(&mut *v.borrow_mut()));
+                        if seen.iter().any(|n| *n < before) { mon.fail(format!("op{} consuming entry called directly through the vtable: the instance was destroyed when its object's context reference was already released (count {} at that moment, {} before the call)", k, seen.iter().min().unwrap(), before)); }
+                        res = Some(None);
+                    }
+                    other => { if h >= 0 && (h as usize) < pool.len() { pool[h as usize] = other; } }
+                }
+            }
             16 => { match take(&mut pool, h) { H::Grp(o) => { let _ = o.gfin(); res = Some(None); } H::GrpC(o) => { let _ = o.gfin(); res = Some(None); } other => { if h >= 0 && (h as usize) < pool.len() { pool[h as usize] = other; } } } }
             17 => { match take(&mut pool, h) { H::Grp(o) => res = Some(Some(H::Child(o.ginto_child()))), H::GrpC(o) => res = Some(Some(H::Child(o.ginto_child()))), other => { if h >= 0 && (h as usize) < pool.len() { pool[h as usize] = other; } } } }
             20 => { if h >= 0 && (h as usize) < pool.len() { if let H::Node(o) = &pool[h as usize] { let g = o.gkid(); res = Some(Some(H::Grp(g))); } } }
@@ -169,6 +187,7 @@ pub fn run(_params: &[i64], ops: &Rows, mon: &mut Mon) -> Rows {
             }
             _ => {}
         }
+        let c = if c == 21 { 5 } else { c };
         let row = match res { None => vec![c, 0, -1], Some(None) => vec![c, 1, -1], Some(Some(x)) => { pool.push(x); vec![c, 1, pool.len() as i64 - 1] } };
         out.push(row);
         let mut obs = vec![cur_count().unwrap() - base, LIVE.load(SeqCst) - live0];
